@@ -142,7 +142,12 @@ def main():
             wt, out = root / f"F-{m}", root / f"F-{m}-out"
             sh("git", "-C", "/repo", "worktree", "add", "-q", "--detach", str(wt), "HEAD")
             out.mkdir(exist_ok=True)
-            (root / f"F-{m}.prompt").write_text(FEATURE.format(wt=wt, root=root, out=out, files=MODULES[m], props=plist))
+            txt = FEATURE.format(wt=wt, root=root, out=out, files=MODULES[m], props=plist)
+            import os as _os
+            focus = _os.environ.get("FOCUS")
+            if focus:
+                txt = txt.replace("Make the three commits different in kind", focus + "\n\nMake the three commits different in kind")
+            (root / f"F-{m}.prompt").write_text(txt)
     else:
         theme = sys.argv[3]
         mods = sys.argv[4:] or list(MODULES)
